@@ -3,17 +3,16 @@
 import json, os
 V = os.path.dirname(os.path.dirname(os.path.abspath(__file__)))
 
-CLAIMED = {
- "C19": dict(cat="proof", design="§3 C19, Appendix A.1",
-   text="Coq theorems (no axioms) over a Z model of TimeLine::advance/constructor/restart for every state satisfying the invariant and EVERY history of requests: "
-        "step is a power of two in [min,max], not larger than requested, divides the remaining time, is the largest such, time strictly increases, never exceeds the end, "
-        "a run that ends lands exactly on the end and its steps sum to the interval, stops only when the request is below the minimum, no division by zero, loops terminate. "
-        "The model is tied to src/TimeLine.hpp by bit-exact differential execution (extracted model vs. real class) on generated histories on every run.",
-   note="Trusted: Coq kernel; extraction (ExtrOcamlBasic, ExtrOCamlFloats, ExtrOCamlInt63) + OCaml for the correspondence only; the premise that A*2^k > request is monotone in k "
-        "is decided per request by mono_check (soundness proved) rather than proved for all doubles; the end time is reproduced up to the rounding of fl(A*2^63+start).",
-   technique="Coq proof by induction over request histories + extracted-model differential correspondence"),
-}
+import sys, glob, importlib
+sys.path.insert(0, os.path.join(V, "lib")); sys.path.insert(0, os.path.join(V, "props"))
+# every props/cNN.py that defines CLAIM = dict(cat=, design=, text=, note=, technique=) is a claimed check
+CLAIMED = {}
+for f in sorted(glob.glob(os.path.join(V, "props", "c[0-9][0-9].py"))):
+    mod = importlib.import_module(os.path.basename(f)[:-3])
+    if getattr(mod, "CLAIM", None):
+        CLAIMED[os.path.basename(f)[:-3].upper()] = mod.CLAIM
 
+# reasons for properties that are deliberately not claimed (others get the "not yet built" reason)
 NOT_APPLICABLE = {
 }
 
@@ -41,7 +40,7 @@ m = {
  "version": 1,
  "setup_cmd": "./check --setup",
  "hooks": {"guard": "CMI_VERIF", "enable": "harnesses and the scratch cmake build under /verif/build/repo compile /repo/src with -DCMI_VERIF",
-           "baseline_off_cmd": "./check --baseline", "source_commits": [], "add_only": True},
+           "baseline_off_cmd": "./check --baseline", "source_commits": ["c91ddc4"], "add_only": True},
  "engines": [
    {"name": "coq", "path": "coq/", "serves_properties": sorted(CLAIMED), "kind_free_text": "Coq 8.16.1 development: Cxx/<id>_Defs.v executable models, Cxx/<id>_Proofs.v, Props/Properties_<id>.v statements + Print Assumptions, Extract/ extraction"},
    {"name": "check", "path": "check", "serves_properties": sorted(CLAIMED), "kind_free_text": "driver: regenerate -> full .vo build -> extraction -> C++ harness against /repo/src -> differential correspondence -> search-on-break -> evidence"},
